@@ -149,7 +149,8 @@ func UnwrapHTTPError(err error) *HTTPError {
 func IsHTTPError(err error, statusCode int, message string) bool {
 	var herr *HTTPError
 	if errors.As(err, &herr) {
-		return herr.Code == statusCode && herr.Body.Message == message
+		// Body is nil when the reply was not the API's JSON error (a proxy's plain-text 404, say)
+		return herr.Code == statusCode && herr.Body != nil && herr.Body.Message == message
 	}
 	return false
 }
